@@ -18,7 +18,11 @@ from .aio import make_shim
 
 # ------------------------------------------------------------------------------------------------ peers
 class Refuse(Exception):
-    """The peer refuses / drops the connection."""
+    """The peer refuses / drops the connection. ``kind`` says how a WebSocket connection attempt fails at the socket level:
+    'ws' (the library's own exception), 'timeout' (TimeoutError: a firewalled port), 'oserror' (OSError: no route to host)."""
+    def __init__(self, kind='ws'):
+        super().__init__(kind)
+        self.kind = kind
 
 
 class Hang(Exception):
@@ -263,7 +267,11 @@ class ThreadedClientSut:
         def create_connection(url, **opts):
             try:
                 link = peer.ws(k, url, opts.get('header'))
-            except Refuse:
+            except Refuse as e:
+                if e.kind == 'timeout':
+                    raise TimeoutError('timed out')
+                if e.kind == 'oserror':
+                    raise OSError(113, 'No route to host')
                 raise WebSocketException('refused')
             if isinstance(link, _ServerLink):
                 k.block(lambda: link.peer.accepted or link.req.done, None, 'ws.connect')
